@@ -113,7 +113,7 @@ func controllingMember(b *ssa.BasicBlock, s *Symer) string {
 func EncoderBits(fn *ssa.Function, buf ssa.Value, s *Symer) (bitMap, []string) {
 	bm := bitMap{}
 	var notes []string
-	for _, b := range fn.Blocks {
+	for _, b := range reversePostorder(fn) {
 		for _, in := range b.Instrs {
 			switch x := in.(type) {
 			case *ssa.Store:
@@ -169,6 +169,13 @@ func EncoderBits(fn *ssa.Function, buf ssa.Value, s *Symer) (bitMap, []string) {
 						notes = append(notes, "unresolved destination of "+n)
 						continue
 					}
+					if _, isK := foldInt(x.Common().Args[2]); isK {
+						// a constant word: these bits carry no member
+						for wb := 0; wb < w*8; wb++ {
+							delete(bm, wordBit(lo, w, wb))
+						}
+						continue
+					}
 					for _, p := range decodeBitfield(x.Common().Args[2], s) {
 						fw := 64
 						if p.Mask == -1 {
@@ -203,6 +210,47 @@ func EncoderBits(fn *ssa.Function, buf ssa.Value, s *Symer) (bitMap, []string) {
 		}
 	}
 	return bm, notes
+}
+
+// linearForm splits an integer expression into its constant part and the
+// renderings of its non-constant addends.
+func linearForm(v ssa.Value, s *Symer) (int64, []string) {
+	if v == nil {
+		return 0, nil
+	}
+	if k, ok := foldInt(v); ok {
+		return k, nil
+	}
+	if bo, ok := stripConv(v).(*ssa.BinOp); ok && bo.Op == token.ADD {
+		k1, t1 := linearForm(bo.X, s)
+		k2, t2 := linearForm(bo.Y, s)
+		return k1 + k2, append(t1, t2...)
+	}
+	return 0, []string{s.Sym(v)}
+}
+
+// reversePostorder lists the blocks so that (loops aside) every block comes
+// after its predecessors: later writes win, as at run time.
+func reversePostorder(fn *ssa.Function) []*ssa.BasicBlock {
+	var post []*ssa.BasicBlock
+	seen := map[*ssa.BasicBlock]bool{}
+	var dfs func(b *ssa.BasicBlock)
+	dfs = func(b *ssa.BasicBlock) {
+		seen[b] = true
+		for _, s := range b.Succs {
+			if !seen[s] {
+				dfs(s)
+			}
+		}
+		post = append(post, b)
+	}
+	if len(fn.Blocks) > 0 {
+		dfs(fn.Blocks[0])
+	}
+	for i, j := 0, len(post)-1; i < j; i, j = i+1, j-1 {
+		post[i], post[j] = post[j], post[i]
+	}
+	return post
 }
 
 // fieldWidth: the width of the unmasked operand of part p inside v (the type
@@ -329,7 +377,9 @@ func DecoderBits(fn *ssa.Function, buf ssa.Value, s *Symer) (bitMap, []string) {
 				}
 				bits := srcBits(x.Val, 0)
 				if bits == nil {
-					if _, isK := x.Val.(*ssa.Const); !isK {
+					_, isK := x.Val.(*ssa.Const)
+					bt, isBasic := x.Val.Type().Underlying().(*types.Basic)
+					if !isK && isBasic && bt.Info()&(types.IsInteger|types.IsBoolean) != 0 {
 						notes = append(notes, "unresolved source of "+addr+": "+s.Sym(x.Val))
 					}
 					continue
